@@ -175,7 +175,8 @@ where
                 self.render_comment_if_needed(expr_line)?;
             }
             write!(self.w, "{}", indent)?;
-            if Self::is_bareword(&t.fragment) {
+            // NULL is its own token and can only name a field when quoted.
+            if Self::is_bareword(&t.fragment) && t.fragment.as_ref() != "NULL" {
                 write!(&mut self.w, "{}", t.fragment)?;
             } else {
                 write!(self.w, "\"{}\"", Self::escape_quotes(&t.fragment))?;
